@@ -5,12 +5,12 @@ Driver handler for the lookup model.
 
 `lookup run <ndirs> <checks 0|1> <cap -1|n> <moddir 0|1> <ops>` – `<ops>` is a `;`-separated history (or
 several fields, which are concatenated), each op one of
-`t<n>` tick · `w<d>.<u>.<c>` write · `d<d>.<u>` delete · `b<d>.<u>` break · `g<u>` get_template ·
+`t<n>` tick · `w<d>.<u>.<c>` write · `d<d>.<u>` delete · `b<d>.<u>` break · `l<d>.<u>.<variant>` break late · `g<u>` get_template ·
 `h<u>` has_template · `s<u>.<c>` put_string · `p<u>.<tid>` put_template (`-` = empty history).
 
 Answer: `<step>;<step>;…|<final keys>|<construction count>` where a step is
 `<out>/<branch>/<sorted keys, comma separated or ->/<construction count>` and `<out>` is
-`-` · `ok.<id>.<content>` · `top` · `lookup` · `compile` · `oserr` · `has1` · `has0`.
+`-` · `ok.<id>.<content>` · `top` · `lookup` · `compile` · `late` · `oserr` · `has1` · `has0`.
 `<branch>` names the path of the model that the step took (coverage only; computed from the pre-state).
 
 `lookup const` answers the regenerated constants.
@@ -29,6 +29,7 @@ def parseOp (t : String) : Option Op :=
   | 'w', some [d, u, c] => some (.writeFile d u c)
   | 'd', some [d, u] => some (.deleteFile d u)
   | 'b', some [d, u] => some (.breakFile d u)
+  | 'l', some [d, u, _] => some (.breakFileLate d u)
   | 'g', some [u] => some (.getTemplate u)
   | 'h', some [u] => some (.hasTemplate u)
   | 's', some [u, c] => some (.putString u c)
@@ -39,7 +40,7 @@ def parseOps (f : String) : Option (List Op) :=
   if f == "-" then some [] else (f.splitOn ";").mapM parseOp
 
 def encExc : Exc → String
-  | .topLevel => "top" | .lookup => "lookup" | .compile => "compile" | .os => "oserr"
+  | .topLevel => "top" | .lookup => "lookup" | .compile => "compile" | .late => "late" | .os => "oserr"
 
 def encOut : Out → String
   | .none => "-"
@@ -57,6 +58,20 @@ def encKeys (c : Coll) : String :=
   let ks := sortNat (keys c)
   if ks.isEmpty then "-" else ",".intercalate (ks.map toString)
 
+def fileKind (file : File) : String :=
+  if file.broken then "broken" else if file.late then "late" else "good"
+
+/-- what `_compile_from_file` finds in the module directory for (uri `k`, source `f`, `file`) -/
+def modState (cfg : Cfg) (s : State) (k : Uri) (f : FileRef) (file : File) : String :=
+  if !cfg.moddir then "nomoddir" else
+  match s.mods k with
+  | none => "nomod"
+  | some m =>
+    if m.time < file.mtime then (if m.late then "modolder-late" else "modolder")
+    else if m.late then "modlate"
+    else if m.src != f then "modothersrc"
+    else "modreuse"
+
 /-- which path of `get_template` the model takes from `s` (coverage information for the harness) -/
 def branchGet (cfg : Cfg) (s : State) (k : Uri) : String :=
   match get? s.coll k with
@@ -69,15 +84,7 @@ def branchGet (cfg : Cfg) (s : State) (k : Uri) : String :=
       | none => "hit-vanished"
       | some file =>
         if keepCached e.val.stamp file.mtime then "hit-fresh"
-        else if file.broken then "hit-stale-broken"
-        else if cfg.moddir then
-          match s.mods k with
-          | some m =>
-            if m.time < file.mtime then "hit-stale-regen"
-            else if Generated.Lookup.moduleChecksSourceName && m.src != f then "hit-stale-regen-othersrc"
-            else "hit-stale-modreuse"
-          | none => "hit-stale-regen"
-        else "hit-stale-reload"
+        else s!"hit-stale-{fileKind file}-{modState cfg s k f file}"
   | none =>
     match firstDir cfg.ndirs s.fs k with
     | none => "miss-none"
@@ -86,16 +93,7 @@ def branchGet (cfg : Cfg) (s : State) (k : Uri) : String :=
       | none => "miss-impossible"
       | some file =>
         let dn := if d == 0 then "dir0" else "dirN"
-        if cfg.moddir then
-          match s.mods k with
-          | some m =>
-            if m.time < file.mtime then (if file.broken then s!"miss-{dn}-broken" else s!"miss-{dn}-regen")
-            else if m.src == (d, k) then s!"miss-{dn}-modreuse"
-            else if Generated.Lookup.moduleChecksSourceName then
-              (if file.broken then s!"miss-{dn}-broken" else s!"miss-{dn}-regen-othersrc")
-            else s!"miss-{dn}-modreuse-othersrc"
-          | none => if file.broken then s!"miss-{dn}-broken" else s!"miss-{dn}-gen"
-        else if file.broken then s!"miss-{dn}-broken" else s!"miss-{dn}-load"
+        s!"miss-{dn}-{fileKind file}-{modState cfg s k (d, k) file}"
 
 /-- some other key than `u` disappeared: `_manage_size` trimmed -/
 def trimmed (s s' : State) (u : Uri) : String :=
@@ -106,6 +104,7 @@ def branch (cfg : Cfg) (s s' : State) : Op → String
   | .writeFile d u _ => if (s.fs (d, u)).isSome then "write-modify" else "write-create"
   | .deleteFile d u => if (s.fs (d, u)).isSome then "delete" else "delete-absent"
   | .breakFile _ _ => "break"
+  | .breakFileLate _ _ => "break-late"
   | .getTemplate u => "get:" ++ branchGet cfg s u ++ trimmed s s' u
   | .hasTemplate u => "has:" ++ branchGet cfg s u ++ trimmed s s' u
   | .putString u _ =>
